@@ -533,21 +533,41 @@ class XPathToken(Token[ta.XPathTokenType]):
             left_values = [x for x in self._items[0].atomization(context)]
             right_values = [x for x in self._items[1].atomization(context)]
             # Boolean comparison if one of the results is a single boolean value (1.)
-            try:
-                if isinstance(left_values[0], bool):
-                    if len(left_values) == 1:
-                        yield left_values[0], self.boolean_value(right_values)
+            if len(left_values) == 1 and isinstance(left_values[0], bool):
+                if self.parser.version == '1.0':
+                    # XPath 1.0: the boolean value of the other operand itself (a node-set is
+                    # true if not empty), but two non node-set objects are ordered as numbers.
+                    right_values = [x for x in self._items[1].select(copy(context))]
+                    if self.symbol not in ('=', '!=') and right_values and \
+                            not isinstance(right_values[0], XPathNode):
+                        yield float(left_values[0]), self.number_value(right_values[0])
                         return
-                if isinstance(right_values[0], bool):
-                    if len(right_values) == 1:
-                        yield self.boolean_value(left_values), right_values[0]
+                yield left_values[0], self.boolean_value(right_values)
+                return
+            elif len(right_values) == 1 and isinstance(right_values[0], bool):
+                if self.parser.version == '1.0':
+                    left_values = [x for x in self._items[0].select(copy(context))]
+                    if self.symbol not in ('=', '!=') and left_values and \
+                            not isinstance(left_values[0], XPathNode):
+                        yield self.number_value(left_values[0]), float(right_values[0])
                         return
-            except IndexError:
+                yield self.boolean_value(left_values), right_values[0]
+                return
+            elif not left_values or not right_values:
                 return
 
-            # Converts to float for lesser-greater operators (3.)
+            # XPath 1.0 with a number as operand: both operands are converted with number()
+            if self.parser.version == '1.0' and (
+                    isinstance(left_values[0], (int, float, decimal.Decimal))
+                    or isinstance(right_values[0], (int, float, decimal.Decimal))):
+                yield from product(map(self.number_value, left_values),
+                                   map(self.number_value, right_values))
+                return
+
+            # Converts with fn:number for lesser-greater operators (3.)
             if self.symbol in ('<', '<=', '>', '>='):
-                yield from product(map(get_double, left_values), map(get_double, right_values))
+                yield from product(map(self.number_value, left_values),
+                                   map(self.number_value, right_values))
                 return
             elif self.parser.version == '1.0':
                 yield from product(left_values, right_values)
